@@ -499,7 +499,7 @@ class Persona(object):
         if b == 'hsa_full_year':
             return True
         if b == 'hdhp_plan_family':
-            return self.hsa_family and not (self.hsa_you and self.hsa_spouse)
+            return self.hsa_family and (getattr(self, 'hsa_family_both', False) or not (self.hsa_you and self.hsa_spouse))
         if b == 'hsa_contributions':
             return round(r.uniform(100, 3000), 2)
         if b == 'employer_contribution':
@@ -566,7 +566,7 @@ class Persona(object):
 
 
 # ----------------------------------------------------------------------
-def solve_persona(p, tracer=None, schedule_seed=None, file_map=None, refuse_from=None, forms=None, extra_answer=None, input_path=None):
+def solve_persona(p, tracer=None, schedule_seed=None, file_map=None, refuse_from=None, forms=None, extra_answer=None, input_path=None, then_request=None):
     """Run the real solver for persona p, answering by demand.  refuse_from=k:
     the user answers k questions and refuses afterwards."""
     classes = hx.catalogue(p.year)
@@ -583,7 +583,7 @@ def solve_persona(p, tracer=None, schedule_seed=None, file_map=None, refuse_from
                 p.answers[missing.name()] = t
                 return t
         return p.answer(missing)
-    out = drive.run_solver(classes, cp, forms or p.forms(), answer=answer, schedule_seed=schedule_seed, tracer=tracer)
+    out = drive.run_solver(classes, cp, forms or p.forms(), answer=answer, schedule_seed=schedule_seed, tracer=tracer, then_request=then_request)
     out.persona = p
     return out
 
@@ -668,6 +668,11 @@ def directed_personas(year, seed, n):
         p = plain_persona(year, 'MFJ', [round(r.uniform(50000, 90000), 2), round(r.uniform(30000, 60000), 2)], key=f'dirhsa:{seed}:{k}',
                                hsa_you=True, hsa_spouse=True, hsa_family=False, s1_adjust=True)
         out.append(('F4d', p))
+        # the same with family coverage (both spouses on a family plan: the limit is shared)
+        p = plain_persona(year, 'MFJ', [round(r.uniform(50000, 90000), 2), round(r.uniform(30000, 60000), 2)], key=f'dirhsaf:{seed}:{k}',
+                               hsa_you=True, hsa_spouse=True, hsa_family=True, s1_adjust=True)
+        p.hsa_family_both = True
+        out.append(('F4f', p))
         # itemizer with medical expenses above the floor and capped state taxes
         st = r.choice(['S', 'MFJ', 'MFS', 'HOH'])
         p = plain_persona(year, st, round(r.uniform(60000, 140000), 2), key=f'diritem:{seed}:{k}', deps_odc=1 if st == 'HOH' else 0, itemize=True, n_1098=1,
